@@ -53,9 +53,6 @@ func tableClass(stored []byte) (string, []refcrypt.Region) {
 		if r.End < r.Start {
 			return "invalid", regs
 		}
-		if r.End == r.Start {
-			class = "unjudged" // single-sector plain region: ambiguous
-		}
 		if i > 0 {
 			if r.Start < regs[i-1].Start {
 				return "invalid", regs
